@@ -975,11 +975,7 @@ impl<T: RealNumber> BaseMatrix<T> for DenseMatrix<T> {
     }
 
     fn softmax_mut(&mut self) {
-        let max = self
-            .values
-            .iter()
-            .map(|x| x.abs())
-            .fold(T::neg_infinity(), |a, b| a.max(b));
+        let max = self.values.iter().fold(T::neg_infinity(), |a, b| a.max(*b));
         let mut z = T::zero();
         for r in 0..self.nrows {
             for c in 0..self.ncols {
